@@ -1,7 +1,9 @@
 use crate::fw::PropDef;
+pub mod c01;
+pub mod c03;
 pub mod c14;
 pub mod c15;
 
 pub fn all() -> Vec<PropDef> {
-    vec![c14::def(), c15::def()]
+    vec![c01::def(), c03::def(), c14::def(), c15::def()]
 }
